@@ -49,6 +49,117 @@ type run struct {
 	// amount of each fxcore-origin token (FX, externally-owned pair) circulating on each external chain: initial +
 	// executed out - deposited.  The environment cannot deposit more than that.
 	extSupply map[[2]int]*big.Int
+	// observed claims (attested events): parked in the real pending store until somebody calls the precompile
+	// executeClaim.  Deposits / executed withdrawals are counted ONCE PER EVENT, when the event leaves the pending store.
+	book      []*claimRec
+	contracts []common.Address // contracts[0] keeps what it receives; the others re-enter executeClaim
+}
+
+// claimRec: one observed claim
+type claimRec struct {
+	c, nonce int
+	kind     string // dep, call, fail, res
+	desc     string // canonical text (op line and pending dump)
+	amounts  []tok  // what the event deposits (a function of the claim only)
+	exp      map[[2]int]int
+	msg      crosschaintypes.ExternalClaim
+	resNonce int // res: outgoing bridge call nonce
+	resOK    bool
+	reenter  bool
+	done     bool
+}
+
+// holder index: 0..NUsers-1 users, NUsers = the reverting contract, NUsers+1+j = contract j (model account U(3+j))
+func (r *run) holderAcc(i int) sdk.AccAddress {
+	switch {
+	case i < bx.NUsers:
+		return r.w.Users[i].AccAddress()
+	case i == bx.NUsers:
+		return sdk.AccAddress(r.w.Bad.Bytes())
+	default:
+		return sdk.AccAddress(r.contracts[i-bx.NUsers-1].Bytes())
+	}
+}
+
+func (r *run) nHolders() int { return bx.NUsers + 1 + len(r.contracts) }
+
+func (r *run) isPending(cl *claimRec) bool {
+	_, ok := r.w.Keeper(cl.c).GetPendingExecuteClaim(r.w.S.Ctx, uint64(cl.nonce))
+	return ok
+}
+
+// reserved: deposits of a locking token that are observed and not yet executed (they left the external chain already)
+func (r *run) reserved(c, g int) int {
+	n := 0
+	for _, cl := range r.book {
+		if cl.c == c && !cl.done {
+			for _, t := range cl.amounts {
+				if t.g == g {
+					n += t.n
+				}
+			}
+		}
+	}
+	return n
+}
+
+// avail: how much of group g the external chain c can still send in
+func (r *run) avail(c, g int) int {
+	if !locks(r.w.Groups[g]) {
+		return 1 << 30
+	}
+	v := new(big.Int).Sub(r.supply(c, g), bi(r.reserved(c, g)))
+	if v.Sign() <= 0 {
+		return 0
+	}
+	if v.Cmp(bi(1<<30)) > 0 {
+		return 1 << 30
+	}
+	return int(v.Int64())
+}
+
+// contractHeld: holdings of the harness contracts (they are holders like users)
+func (r *run) contractHeld() map[int]*big.Int {
+	res := map[int]*big.Int{}
+	for _, g := range r.w.Groups {
+		sum := new(big.Int)
+		for _, a := range r.contracts {
+			for k := 0; k < 5; k++ {
+				sum.Add(sum, r.w.Holding(g, k, sdk.AccAddress(a.Bytes())))
+			}
+		}
+		res[g.G] = sum
+	}
+	return res
+}
+
+// claimExtras: contract holdings and the pending claims, appended to the observation line
+func (r *run) claimExtras() string {
+	var p []string
+	names := []string{"B", "b0", "b1", "b2", "T"}
+	for j, a := range r.contracts {
+		for _, g := range r.w.Groups {
+			for k := 0; k < 5; k++ {
+				if v := r.w.Holding(g, k, sdk.AccAddress(a.Bytes())); v.Sign() != 0 {
+					p = append(p, fmt.Sprintf("u%d.g%d%s=%s", bx.NUsers+j, g.G, names[k], v))
+				}
+			}
+		}
+	}
+	var pend []*claimRec
+	for _, cl := range r.book {
+		if r.isPending(cl) {
+			pend = append(pend, cl)
+		}
+	}
+	sort.Slice(pend, func(i, j int) bool { return pend[i].c*1000000+pend[i].nonce < pend[j].c*1000000+pend[j].nonce })
+	for _, cl := range pend {
+		p = append(p, fmt.Sprintf("q%d.%d=%s", cl.c, cl.nonce, strings.ReplaceAll(cl.desc, " ", ":")))
+	}
+	if len(p) == 0 {
+		return ""
+	}
+	return " " + strings.Join(p, " ")
 }
 
 func locks(g *bx.Group) bool { return g.Kind != bx.KindModule }
@@ -205,17 +316,12 @@ func tokStr(ts []tok) string {
 }
 
 func (r *run) userHeld() []map[int]*big.Int {
-	// per tracked holder (users + bad contract): per group total holdings
+	// per tracked holder (users, the reverting contract, the harness contracts): per group total holdings
 	w := r.w
-	res := make([]map[int]*big.Int, bx.NUsers+1)
-	for i := 0; i <= bx.NUsers; i++ {
+	res := make([]map[int]*big.Int, r.nHolders())
+	for i := range res {
 		res[i] = map[int]*big.Int{}
-		var acc sdk.AccAddress
-		if i < bx.NUsers {
-			acc = w.Users[i].AccAddress()
-		} else {
-			acc = sdk.AccAddress(w.Bad.Bytes())
-		}
+		acc := r.holderAcc(i)
 		for _, g := range w.Groups {
 			sum := new(big.Int)
 			for k := 0; k < 5; k++ {
@@ -230,8 +336,18 @@ func (r *run) userHeld() []map[int]*big.Int {
 // exec runs one op on the real app, emits op/obs lines and evaluates the monitors.
 // expect: stated per-holder deltas per group for a successful op (holder index NUsers = bad contract).
 func (r *run) exec(line string, f func() string, expect map[[2]int]int, dep, wd []tok, wdCheck func(res string)) string {
+	return r.execLate(line, f, expect, dep, wd, wdCheck, nil)
+}
+
+// execLate: like exec; `late` (if given) computes the stated deltas, deposits and withdrawals AFTER the op ran (for
+// executeClaim they depend on which observed events left the pending store)
+func (r *run) execLate(line string, f func() string, expect map[[2]int]int, dep, wd []tok, wdCheck func(res string),
+	late func(res string) (map[[2]int]int, []tok, []tok)) string {
 	before := r.userHeld()
 	res := f()
+	if late != nil {
+		expect, dep, wd = late(res)
+	}
 	kind := "ok"
 	if res != "ok" {
 		kind = "err"
@@ -256,7 +372,7 @@ func (r *run) exec(line string, f func() string, expect map[[2]int]int, dep, wd 
 		}
 	}
 	r.syncExt()
-	obs := kind + " " + strings.TrimSpace(r.w.Dump()+r.extras())
+	obs := kind + " " + strings.TrimSpace(r.w.Dump()+r.extras()+r.claimExtras())
 	r.out.Emit(line, obs)
 	r.out.Count("op:" + op + ":" + kind)
 	if kind == "err" {
@@ -274,9 +390,10 @@ func (r *run) exec(line string, f func() string, expect map[[2]int]int, dep, wd 
 	}
 	// monitor 1: conservation on real balances
 	held := r.w.Held()
+	cheld := r.contractHeld()
 	infl, _ := r.w.InFlight()
 	for _, g := range r.w.Groups {
-		lhs := new(big.Int).Set(held[g.G])
+		lhs := new(big.Int).Add(held[g.G], cheld[g.G])
 		if infl[g.G] != nil {
 			lhs.Add(lhs, infl[g.G])
 		}
@@ -326,7 +443,7 @@ func (r *run) exec(line string, f func() string, expect map[[2]int]int, dep, wd 
 	}
 	// monitor 2: every holder's holdings change by exactly the stated delta
 	after := r.userHeld()
-	for i := 0; i <= bx.NUsers; i++ {
+	for i := 0; i < len(before); i++ {
 		for _, g := range r.w.Groups {
 			d := new(big.Int).Sub(after[i][g.G], before[i][g.G])
 			want := 0
@@ -345,6 +462,9 @@ func (r *run) exec(line string, f func() string, expect map[[2]int]int, dep, wd 
 			sum.Add(sum, r.w.BalanceOf(g.Erc20, r.w.Users[i].Address()))
 		}
 		sum.Add(sum, r.w.BalanceOf(g.Erc20, r.w.Bad))
+		for _, a := range r.contracts {
+			sum.Add(sum, r.w.BalanceOf(g.Erc20, a))
+		}
 		sum.Add(sum, r.w.BalanceOf(g.Erc20, bx.Erc20ModuleAddr()))
 		sum.Add(sum, r.w.BalanceOf(g.Erc20, r.w.Owner.Address()))
 		if ts := r.w.TotalSupply(g.Erc20); ts.Cmp(sum) != 0 {
@@ -390,7 +510,126 @@ func (r *run) nextNonce() uint64 { r.nonce++; return r.nonce }
 
 // ---- ops ---------------------------------------------------------------------------------------------
 
-func (r *run) deposit(c, g, u, n int, toErc bool) {
+// observe: the attestation of an external event is observed: the real AttestationHandler parks the claim
+func (r *run) observe(cl *claimRec) {
+	w := r.w
+	r.book = append(r.book, cl)
+	r.exec(fmt.Sprintf("obs %d %d %s", cl.c, cl.nonce, cl.desc), func() string {
+		return w.Atomic(func(ctx sdk.Context) error { return w.Keeper(cl.c).AttestationHandler(ctx, cl.msg) })
+	}, nil, nil, nil, nil)
+	r.out.Count("claim:" + cl.kind)
+}
+
+// callEVMGas: a real EVM message with a generous gas limit (nested bridge-call handlers run inside it)
+func (r *run) callEVMGas(from, to common.Address, data []byte) string {
+	w := r.w
+	return w.Atomic(func(ctx sdk.Context) error {
+		res, err := w.S.App.EvmKeeper.CallEVM(ctx, from, &to, big.NewInt(0), 30_000_000, data, true)
+		if err != nil {
+			return err
+		}
+		if res.Failed() {
+			return fmt.Errorf("vm: %s", res.VmError)
+		}
+		return nil
+	})
+}
+
+// execClaim: user `by` calls the precompile executeClaim(chain, nonce) in a real EVM message.  Every observed event
+// that leaves the pending store during the call (the claim itself and whatever re-entrant contracts executed) counts
+// ONCE: its claimed amounts as deposits, its stated credits as the holders' deltas.
+func (r *run) execClaim(c, nonce, by int) string {
+	w := r.w
+	data, err := crosschaintypes.GetABI().Pack("executeClaim", r.chain(c), bi(nonce))
+	if err != nil {
+		panic(err)
+	}
+	type snap struct {
+		cl  *claimRec
+		exp map[[2]int]int
+		wd  []tok
+		cr  *callRec
+	}
+	var pend []snap
+	for _, cl := range r.book {
+		if !r.isPending(cl) {
+			continue
+		}
+		sn := snap{cl: cl, exp: cl.exp}
+		if cl.kind == "res" { // what the result claim settles is read off the outgoing call as it is now
+			sn.exp = map[[2]int]int{}
+			for _, oc := range r.outCalls() {
+				if oc.c == cl.c && oc.nonce == cl.resNonce {
+					oc := oc
+					sn.cr = &oc
+					if cl.resOK {
+						sn.wd = oc.ts
+					} else if oc.refund >= 0 {
+						for _, t := range oc.ts {
+							sn.exp[[2]int{oc.refund, t.g}] += t.n
+						}
+					}
+				}
+			}
+		}
+		pend = append(pend, sn)
+	}
+	var top *snap
+	for i := range pend {
+		if pend[i].cl.c == c && pend[i].cl.nonce == nonce {
+			top = &pend[i]
+		}
+	}
+	return r.execLate(fmt.Sprintf("exec %d %d", c, nonce), func() string {
+		return r.callEVMGas(w.Users[by].Address(), crosschaintypes.GetAddress(), data)
+	}, nil, nil, nil, func(res string) {
+		if top != nil && top.cl.kind == "res" && !top.cl.resOK {
+			r.refundCheck(top.cr)(res)
+		}
+	}, func(res string) (map[[2]int]int, []tok, []tok) {
+		exp := map[[2]int]int{}
+		var dep, wd []tok
+		executed := 0
+		for _, sn := range pend {
+			if r.isPending(sn.cl) {
+				continue
+			}
+			executed++
+			sn.cl.done = true
+			for k, v := range sn.exp {
+				exp[k] += v
+			}
+			if sn.cl.c != c {
+				// accounted on its own chain below (supply bookkeeping is per chain): emulate by direct update
+				for _, t := range sn.cl.amounts {
+					if locks(w.Groups[t.g]) {
+						r.supply(sn.cl.c, t.g).Sub(r.supply(sn.cl.c, t.g), bi(t.n))
+						r.supply(c, t.g).Add(r.supply(c, t.g), bi(t.n))
+					}
+				}
+				for _, t := range sn.wd {
+					if locks(w.Groups[t.g]) {
+						r.supply(sn.cl.c, t.g).Add(r.supply(sn.cl.c, t.g), bi(t.n))
+						r.supply(c, t.g).Sub(r.supply(c, t.g), bi(t.n))
+					}
+				}
+			}
+			dep = append(dep, sn.cl.amounts...)
+			wd = append(wd, sn.wd...)
+		}
+		if executed > 1 {
+			r.out.Count("exec:nested-claims-executed")
+		}
+		if res == "ok" && executed == 0 {
+			r.out.Violate("executeClaim succeeded but no observed event left the pending store")
+		}
+		return exp, dep, wd
+	})
+}
+
+// claim constructors ---------------------------------------------------------------------------------------
+
+func (r *run) depClaim(c, g, u, n int, toErc bool) *claimRec {
 	w := r.w
 	grp := w.Groups[g]
 	target := ""
@@ -403,17 +642,18 @@ func (r *run) deposit(c, g, u, n int, toErc bool) {
 	if contractAddr == "" {
 		contractAddr = helpers.GenExternalAddr(r.chain(c))
 	}
-	r.exec(fmt.Sprintf("deposit %d %d %d %d %d", c, g, u, n, e), func() string {
-		if grp.OnChain[c] && !r.envOk(c, []tok{{g, n}}) {
-			return "err:env: the external chain does not hold these tokens"
-		}
-		return w.Atomic(func(ctx sdk.Context) error {
-			return w.Keeper(c).SendToFxExecuted(ctx, &crosschaintypes.MsgSendToFxClaim{
-				EventNonce: r.nextNonce(), BlockHeight: 1, TokenContract: contractAddr, Amount: si(n),
-				Sender: helpers.GenExternalAddr(r.chain(c)), Receiver: w.Users[u].AccAddress().String(), TargetIbc: target, ChainName: r.chain(c),
-			})
-		})
-	}, map[[2]int]int{{u, g}: n}, []tok{{g, n}}, nil, nil)
+	nonce := int(r.nextNonce())
+	return &claimRec{c: c, nonce: nonce, kind: "dep", desc: fmt.Sprintf("dep %d %d %d %d", g, u, n, e), amounts: []tok{{g, n}},
+		exp: map[[2]int]int{{u, g}: n},
+		msg: &crosschaintypes.MsgSendToFxClaim{EventNonce: uint64(nonce), BlockHeight: 1, TokenContract: contractAddr, Amount: si(n),
+			Sender: helpers.GenExternalAddr(r.chain(c)), Receiver: w.Users[u].AccAddress().String(), TargetIbc: target, ChainName: r.chain(c)}}
+}
+
+// deposit: an observed MsgSendToFxClaim, executed right away by the receiver
+func (r *run) deposit(c, g, u, n int, toErc bool) {
+	cl := r.depClaim(c, g, u, n, toErc)
+	r.observe(cl)
+	r.execClaim(c, cl.nonce, u)
 }
 
 func (r *run) withdrawCheck(op string, c, g, u, total int, viaErc bool) func(string) {
@@ -745,7 +985,6 @@ func (r *run) outCalls() []callRec {
 func (r *run) bcresult(c, nonce int, success bool, cr *callRec, timeout bool) {
 	w := r.w
 	exp := map[[2]int]int{}
-	var wd []tok
 	if timeout {
 		success = false
 	}
@@ -757,13 +996,9 @@ func (r *run) bcresult(c, nonce int, success bool, cr *callRec, timeout bool) {
 			}
 		}
 	}
-	if cr != nil {
-		if success {
-			wd = cr.ts
-		} else if cr.refund >= 0 {
-			for _, t := range cr.ts {
-				exp[[2]int{cr.refund, t.g}] += t.n
-			}
+	if cr != nil && !success && cr.refund >= 0 {
+		for _, t := range cr.ts {
+			exp[[2]int{cr.refund, t.g}] += t.n
 		}
 	}
 	if timeout {
@@ -780,21 +1015,20 @@ func (r *run) bcresult(c, nonce int, success bool, cr *callRec, timeout bool) {
 		}, exp, nil, nil, r.refundCheck(cr))
 		return
 	}
+	cl := r.resClaim(c, nonce, success)
+	r.observe(cl)
+	r.execClaim(c, cl.nonce, r.rng.Intn(bx.NUsers))
+}
+
+func (r *run) resClaim(c, nonce int, success bool) *claimRec {
 	s := 0
 	if success {
 		s = 1
 	}
-	r.exec(fmt.Sprintf("bcresult %d %d %d", c, nonce, s), func() string {
-		return w.Atomic(func(ctx sdk.Context) error {
-			w.Keeper(c).BridgeCallResultHandler(ctx, &crosschaintypes.MsgBridgeCallResultClaim{ChainName: r.chain(c), EventNonce: r.nextNonce(), BlockHeight: 1,
-				Nonce: uint64(nonce), TxOrigin: helpers.GenExternalAddr(r.chain(c)), Success: success})
-			return nil
-		})
-	}, exp, nil, wd, func(res string) {
-		if !success {
-			r.refundCheck(cr)(res)
-		}
-	})
+	ev := int(r.nextNonce())
+	return &claimRec{c: c, nonce: ev, kind: "res", desc: fmt.Sprintf("res %d %d", nonce, s), resNonce: nonce, resOK: success,
+		msg: &crosschaintypes.MsgBridgeCallResultClaim{ChainName: r.chain(c), EventNonce: uint64(ev), BlockHeight: 1,
+			Nonce: uint64(nonce), TxOrigin: helpers.GenExternalAddr(r.chain(c)), Success: success}}
 }
 
 // a refund of an existing outgoing bridge call must not be refused for lack of escrowed funds
@@ -818,7 +1052,9 @@ func (r *run) refundCheck(cr *callRec) func(string) {
 	}
 }
 
-func (r *run) bcin(c, to, ref int, ts []tok, fail bool) {
+// callClaim: an observed MsgBridgeCallClaim.  target: -1 = the reverting contract (refund path), 0..NUsers-1 = a plain
+// account, NUsers+j = harness contract j (keeps the tokens / re-enters executeClaim)
+func (r *run) callClaim(c, target, ref int, ts []tok, beh string) *claimRec {
 	w := r.w
 	exp := map[[2]int]int{}
 	var contracts []string
@@ -826,26 +1062,68 @@ func (r *run) bcin(c, to, ref int, ts []tok, fail bool) {
 	for _, t := range ts {
 		contracts = append(contracts, r.tokenContract(c, t.g))
 		amounts = append(amounts, si(t.n))
-		if !fail {
-			exp[[2]int{to, t.g}] += t.n
+	}
+	nonce := int(r.nextNonce())
+	cl := &claimRec{c: c, nonce: nonce, amounts: ts, exp: exp}
+	var toAddr string
+	switch {
+	case target < 0:
+		toAddr = hexAddr(w.Bad)
+		cl.kind, cl.desc = "fail", fmt.Sprintf("fail %d %s", ref, tokStr(ts))
+	case target < bx.NUsers:
+		toAddr = hexAddr(w.Users[target].Address())
+		cl.kind, cl.desc = "call", fmt.Sprintf("call %d - %s", target, tokStr(ts))
+		for _, t := range ts {
+			exp[[2]int{target, t.g}] += t.n
+		}
+	default:
+		j := target - bx.NUsers
+		toAddr = hexAddr(r.contracts[j])
+		cl.kind, cl.desc = "call", fmt.Sprintf("call %d %s %s", target, beh, tokStr(ts))
+		cl.reenter = beh != "keep"
+		for _, t := range ts {
+			exp[[2]int{bx.NUsers + 1 + j, t.g}] += t.n
 		}
 	}
-	toAddr := hexAddr(w.Bad)
-	line := fmt.Sprintf("bcinfail %d %d %s", c, ref, tokStr(ts))
-	if !fail {
-		toAddr = hexAddr(w.Users[to].Address())
-		line = fmt.Sprintf("bcin %d %d %s", c, to, tokStr(ts))
+	cl.msg = &crosschaintypes.MsgBridgeCallClaim{ChainName: r.chain(c), EventNonce: uint64(nonce), BlockHeight: 1,
+		Sender: helpers.GenExternalAddr(r.chain(c)), Refund: hexAddr(w.Users[ref].Address()), TokenContracts: contracts, Amounts: amounts,
+		To: toAddr, Data: "", Value: sdkmath.ZeroInt(), Memo: "", TxOrigin: helpers.GenExternalAddr(r.chain(c))}
+	return cl
+}
+
+// bcin: an observed inbound bridge call to a plain account (or to the reverting contract), executed right away
+func (r *run) bcin(c, to, ref int, ts []tok, fail bool) {
+	target := to
+	if fail {
+		target = -1
 	}
-	r.exec(line, func() string {
-		if !r.envOk(c, ts) {
-			return "err:env: the external chain does not hold these tokens"
+	cl := r.callClaim(c, target, ref, ts, "-")
+	r.observe(cl)
+	r.execClaim(c, cl.nonce, r.rng.Intn(bx.NUsers))
+}
+
+// newContract installs a contract.  reenter: whatever it is called with, it calls executeClaim(chain, nonce) on the
+// crosschain precompile once, ignores the result and stops:
+//   PUSH2 len PUSH2 off PUSH1 0 CODECOPY  PUSH1 0 PUSH1 0 PUSH2 len PUSH1 0 PUSH1 0 PUSH2 0x1004 GAS CALL POP STOP
+// otherwise (keep): STOP.
+func (r *run) newContract(reenter bool, c, nonce int) int {
+	code := []byte{0x00}
+	if reenter {
+		callData, err := crosschaintypes.GetABI().Pack("executeClaim", r.chain(c), bi(nonce))
+		if err != nil {
+			panic(err)
 		}
-		return w.Atomic(func(ctx sdk.Context) error {
-			return w.Keeper(c).BridgeCallHandler(ctx, &crosschaintypes.MsgBridgeCallClaim{ChainName: r.chain(c), EventNonce: r.nextNonce(), BlockHeight: 1,
-				Sender: helpers.GenExternalAddr(r.chain(c)), Refund: hexAddr(w.Users[ref].Address()), TokenContracts: contracts, Amounts: amounts,
-				To: toAddr, Data: "", Value: sdkmath.ZeroInt(), Memo: "", TxOrigin: helpers.GenExternalAddr(r.chain(c))})
-		})
-	}, exp, ts, nil, nil)
+		l := []byte{byte(len(callData) >> 8), byte(len(callData))}
+		code = []byte{0x61, l[0], l[1], 0x61, 0x00, 0x1b, 0x60, 0x00, 0x39, 0x60, 0x00, 0x60, 0x00, 0x61, l[0], l[1],
+			0x60, 0x00, 0x60, 0x00, 0x61, 0x10, 0x04, 0x5a, 0xf1, 0x50, 0x00}
+		code = append(code, callData...)
+	}
+	addr := common.BigToAddress(big.NewInt(int64(0xC0DE0000 + len(r.contracts))))
+	if err := r.w.S.App.EvmKeeper.CreateContractWithCode(r.w.S.Ctx, addr, code); err != nil {
+		panic(err)
+	}
+	r.contracts = append(r.contracts, addr)
+	return len(r.contracts) - 1
 }
 
 func (r *run) ccoin(g, u, rc, n int) {
@@ -1259,13 +1537,179 @@ func (r *run) randomIncfee() {
 	r.incfee(tx.c, tx.id, payer, g, n)
 }
 
+// feasible clamps the amounts of an inbound claim to what the external chain can send in (locking tokens) and drops
+// tokens it has none of; nil if nothing is left
+func (r *run) feasible(c int, ts []tok) []tok {
+	var out []tok
+	used := map[int]int{}
+	for _, t := range ts {
+		if !r.w.Groups[t.g].OnChain[c] {
+			out = append(out, t) // malformed stream: rejected by the handler (stays parked)
+			continue
+		}
+		a := r.avail(c, t.g) - used[t.g]
+		if a <= 0 {
+			continue
+		}
+		if t.n > a {
+			t.n = a
+		}
+		used[t.g] += t.n
+		out = append(out, t)
+	}
+	return out
+}
+
+// randomInbound: an external event is observed (deposit or inbound bridge call: to an account, to a contract that
+// reverts, keeps the tokens, or RE-ENTERS executeClaim for its own event / another parked event / a bogus one) and is
+// executed right away or left parked for a later executeClaim
+func (r *run) randomInbound() {
+	rng := r.rng
+	u := rng.Intn(bx.NUsers)
+	var cl *claimRec
+	if rng.Intn(100) < 50 {
+		g, c := r.pickGroupChain(false)
+		ts := r.feasible(c, []tok{{g, 1 + rng.Intn(40)}})
+		if len(ts) == 0 {
+			g, c = 1+rng.Intn(2), 0 // a module-owned token can always come in
+			ts = []tok{{g, 1 + rng.Intn(40)}}
+		}
+		cl = r.depClaim(c, ts[0].g, u, ts[0].n, rng.Intn(3) == 0)
+	} else {
+		c := rng.Intn(len(bx.Chains))
+		kind := rng.Intn(100)
+		ts := r.tokens(c)
+		if kind >= 20 && kind < 60 && rng.Intn(4) == 0 { // the claim carries token ARRAYS: the same token twice
+			ts = append(ts, tok{ts[0].g, 1 + rng.Intn(5)})
+			r.out.Count("gen:tokens:same-token-twice")
+		}
+		switch {
+		case kind < 20: // reverting contract: refund path
+			if ts = r.feasible(c, ts); len(ts) == 0 {
+				return
+			}
+			cl = r.callClaim(c, -1, rng.Intn(bx.NUsers), ts, "-")
+		case kind < 60: // plain account
+			if ts = r.feasible(c, ts); len(ts) == 0 {
+				return
+			}
+			cl = r.callClaim(c, u, rng.Intn(bx.NUsers), ts, "-")
+		case kind < 72: // contract that keeps what it receives
+			if ts = r.feasible(c, ts); len(ts) == 0 {
+				return
+			}
+			cl = r.callClaim(c, bx.NUsers, rng.Intn(bx.NUsers), ts, "keep")
+		default:
+			cl = r.reenterClaim()
+			if cl == nil {
+				return
+			}
+		}
+	}
+	r.observe(cl)
+	if rng.Intn(5) > 0 {
+		r.execClaim(cl.c, cl.nonce, rng.Intn(bx.NUsers))
+	} else {
+		r.out.Count("gen:claim:parked")
+	}
+}
+
+// reenterClaim: an inbound bridge call whose target contract calls executeClaim again.  It carries an externally-owned
+// token whose bridge-side escrow on that chain is at most 6 times the amount: if the pending claim were still
+// executable while its handler runs, the recursion would stop when the escrow is empty instead of exhausting the
+// process (a module-owned token is minted on deposit and FX has the whole genesis escrow behind it).
+func (r *run) reenterClaim() *claimRec {
+	rng := r.rng
+	if len(r.contracts) >= 13 {
+		return nil
+	}
+	type cand struct{ c, g, lo, hi int }
+	var cands []cand
+	for c := range bx.Chains {
+		for _, g := range r.w.Groups {
+			if g.Kind != bx.KindExternal || !g.OnChain[c] {
+				continue
+			}
+			esc := int(r.w.S.App.BankKeeper.GetBalance(r.w.S.Ctx, bx.ModuleAddr(bx.Chains[c]), g.Bridge[c]).Amount.Int64())
+			hi := r.avail(c, g.G)
+			lo := (esc + 5) / 6
+			if lo < 1 {
+				lo = 1
+			}
+			if hi >= lo {
+				cands = append(cands, cand{c, g.G, lo, hi})
+			}
+		}
+	}
+	if len(cands) == 0 {
+		r.out.Count("gen:reenter:no-bounded-escrow")
+		return nil
+	}
+	k := cands[rng.Intn(len(cands))]
+	n := k.lo + rng.Intn(k.hi-k.lo+1)
+	if rng.Intn(2) == 0 && k.hi/2 >= k.lo { // leave room for a second credit
+		n = k.lo + rng.Intn(k.hi/2-k.lo+1)
+	}
+	own := int(r.nonce) + 1
+	tc, tn := k.c, own
+	switch rng.Intn(5) {
+	case 0, 1:
+		r.out.Count("gen:reenter:own-event")
+	case 2, 3:
+		var parked []*claimRec
+		for _, cl := range r.book {
+			if r.isPending(cl) {
+				parked = append(parked, cl)
+			}
+		}
+		if len(parked) > 0 {
+			p := parked[rng.Intn(len(parked))]
+			tc, tn = p.c, p.nonce
+			r.out.Count("gen:reenter:another-parked-event")
+		} else {
+			r.out.Count("gen:reenter:own-event")
+		}
+	default:
+		tn = 1 + rng.Intn(own+2)
+		r.out.Count("gen:reenter:arbitrary-nonce")
+	}
+	j := r.newContract(true, tc, tn)
+	return r.callClaim(k.c, bx.NUsers+j, rng.Intn(bx.NUsers), []tok{{k.g, n}}, fmt.Sprintf("re:%d:%d", tc, tn))
+}
+
+// randomExec: somebody calls executeClaim for a parked event, for one that was executed already, or for none
+func (r *run) randomExec() {
+	rng := r.rng
+	var parked, done []*claimRec
+	for _, cl := range r.book {
+		if r.isPending(cl) {
+			parked = append(parked, cl)
+		} else {
+			done = append(done, cl)
+		}
+	}
+	by := rng.Intn(bx.NUsers)
+	switch {
+	case len(parked) > 0 && rng.Intn(6) > 0:
+		cl := parked[rng.Intn(len(parked))]
+		r.out.Count("gen:exec:parked")
+		r.execClaim(cl.c, cl.nonce, by)
+	case len(done) > 0 && rng.Intn(2) == 0:
+		cl := done[rng.Intn(len(done))]
+		r.out.Count("gen:exec:again")
+		r.execClaim(cl.c, cl.nonce, by)
+	default:
+		r.out.Count("gen:exec:unknown")
+		r.execClaim(rng.Intn(len(bx.Chains)), 1+rng.Intn(int(r.nonce)+3), by)
+	}
+}
+
 func (r *run) randomOp() {
 	rng := r.rng
 	u := rng.Intn(bx.NUsers)
 	switch k := rng.Intn(100); {
 	case k < 18:
-		g, c := r.pickGroupChain(false)
-		r.deposit(c, g, u, 1+rng.Intn(40), rng.Intn(3) == 0)
+		r.randomInbound()
 	case k < 31:
 		u, g := r.holder(false)
 		fee := r.fee()
@@ -1342,14 +1786,11 @@ func (r *run) randomOp() {
 		cr := calls[rng.Intn(len(calls))]
 		r.bcresult(cr.c, cr.nonce, rng.Intn(3) == 0, &cr, rng.Intn(3) == 0)
 	case k < 89:
-		c := rng.Intn(len(bx.Chains))
-		fail := rng.Intn(3) == 0
-		ts := r.tokens(c)
-		if !fail && rng.Intn(4) == 0 { // the claim carries token ARRAYS: the same token twice
-			ts = append(ts, tok{ts[0].g, 1 + rng.Intn(5)})
-			r.out.Count("gen:tokens:same-token-twice")
+		if rng.Intn(3) == 0 {
+			r.randomExec()
+		} else {
+			r.randomInbound()
 		}
-		r.bcin(c, u, rng.Intn(bx.NUsers), ts, fail)
 	case k < 93:
 		g := rng.Intn(5)
 		r.ccoin(g, u, rng.Intn(bx.NUsers), r.amount(r.baseBal(u, g)))
@@ -1408,6 +1849,7 @@ func TestC04(t *testing.T) {
 			r.deposited[g.G] = new(big.Int)
 			r.withdrawn[g.G] = new(big.Int)
 		}
+		r.newContract(false, 0, 0) // contract 0 keeps what it receives
 		m0fx := w.S.App.BankKeeper.GetBalance(w.S.Ctx, bx.ModuleAddr("eth"), fxtypes.DefaultDenom).Amount
 		r.supply(0, 0).Set(m0fx.BigInt()) // the FX locked at genesis is what circulates on Ethereum
 		out.Reset(m0fx.String())
